@@ -78,6 +78,7 @@ def jobs(tier):
         js += equal_jobs(bits, tier)
         js += selfcheck_jobs(bits, tier)
         js += finding_canon_jobs(bits)
+        js += C05.band_jobs(bits, tier)      # obligation band.appended_boxes_canonical
         js += C05.leaf_jobs(bits, tier)
         # canon(result) as a conjunct of the C05 postconditions: the distinct-object cases of every operation
         shared = [j for j in C05.binop_jobs(bits, tier) + C05.unop_jobs(bits, tier)
